@@ -248,6 +248,10 @@ class SrvAdapter:
     def _connect_behaviour(self, auth):
         b = auth if isinstance(auth, str) else \
             (auth or {}).get('b', 'ok') if isinstance(auth, dict) else 'ok'
+        if auth is None and getattr(self, '_forced', None):
+            # (RxConnect with auth "absent:<b>": nothing was sent, and the
+            # application refuses this connection for reasons of its own)
+            b = self._forced
         if b == 'false':
             return False
         if b == 'ref0':
@@ -401,7 +405,8 @@ class SrvAdapter:
         ns = a.get('ns')
         if act == 'RxConnect':
             auth = a['auth']
-            data = None if auth == 'absent' else {'b': auth[5:]} \
+            self._forced = auth[7:] if auth.startswith('absent:') else None
+            data = None if auth.startswith('absent') else {'b': auth[5:]} \
                 if auth.startswith('auth:') else val(auth)
             return enc(0, ns, None, data)
         if act == 'RxDisconnect':
